@@ -17,8 +17,8 @@
    Partial display mode (no alternate buffer; display origin = terminal row 0, lines below blank, as many
    terminal rows as canvas rows): any history of draws, clear() and frames abandoned by a mid-draw SIGWINCH.
    Zero-width (combining) characters and C0 control characters are covered except as the first character of
-   a run (a control character under a narrow encoding is one column wide and may be first).  REFUTED
-   (statement kept, witness): runs starting with a zero-column character / without columns; partial display with a display origin below row 0 and size changes in
+   a run (a control character under a narrow encoding is one column wide and may be first).  NOT proved
+   (statement kept, oracle only): runs starting with a zero-column character / without columns; partial display with a display origin below row 0 and size changes in
    partial display mode (oracle only). *)
 From Coq Require Import ZArith List Bool Lia ZifyBool.
 Import ListNotations.
@@ -221,15 +221,11 @@ Print Assumptions row_cells_is_threaded.
        are painted as '?'; [run_cells] is defined on the text that is sent ([out_text]).  A run in the
        IBMPC charset "U" is sent untranslated and must not contain them. --- *)
 
-(* --- REFUTED of the code as it is (statement [draw_paints_any_text_full] in Model/PaintSpec.v): draw_paints
-       for runs that START with a character taking no column and for runs without columns.  The witness
-       of the first refutation (a zero-column run BEFORE the last character, repaired by ca038f3) is now
-       painted correctly; this witness is a bottom row whose LAST run holds no columns: _last_row takes it
-       as Z, and the combining character joins the character before Y (corpus/C04/08_*.json, known finding
-       C04-bottom-row-last-run-without-columns). --- *)
-Theorem draw_paints_any_text_refuted : ~ draw_paints_any_text_full.
-Proof. exact any_text_refuted_lemma. Qed.
-Print Assumptions draw_paints_any_text_refuted.
+(* --- NOT PROVED (statement [draw_paints_any_text_full] in Model/PaintSpec.v, decided by the
+       correspondence and the oracle only): draw_paints for runs that START with a character taking no
+       column and for runs without columns.  Both refutation witnesses found so far (a zero-column run
+       before the last character, ca038f3; a zero-column LAST run, 95d7bbc) are repaired and kept in
+       corpus/C04 (06, 07, 08). --- *)
 
 (* --- non-vacuity --- *)
 Definition ex_cfg : cfg :=
